@@ -19,6 +19,11 @@ RULE = ('cases: (1) single operations op(L,R) with L a sparse vector/logical vec
         'boolean mask, [i,j], [:,j], [rows,cols]; (3) reductions x axis x keepdims; (4) construction/copy/conversion; (5) rejection domain R; '
         '(6) histories of 5-30 operations on a pool of 4 objects with aliasing and row views, NumPy twins updated in lock-step; '
         '(7) bounded exhaustive enumeration over the alphabet {0,1,-1,0.5} for vectors of size<=3 and arrays<=2x2. '
+        'Added: length-1 / single-row LEFT operands, 1-d left with 2-d right operands, Python bool lists, integer ndarrays and NumPy int / bool scalars as right operands; negative reduction axes (refusal counted); '
+        'construction / conversion forms (from_size, size=, from_dict / from_set, from_rows and SparseArray(rows) adopting rows, two arrays on shared rows, SparseVector(sparse), sparse(copy=True), to_array(dtype) / astype, '
+        'to_flat_array(out), np.asarray, iter / len, scalar casts, shape / size / dtype / value); public methods with their NumPy meaning (mix_from incl. self among the mixed vectors, copy_like, sum_of, '
+        'remove_negatives, clear, index / key / value queries, sparse_equal, shares_data_with, sum_sparse_vectors); get-then-write (views for basic indexing, copies for fancy / boolean indexing); '
+        'history steps: logical and in-place logical operators, abs, invert, reflected operators, reductions, clear, row / row-slice selections kept in the pool, logical 2-d pool members; empty operands in reductions and constructions. '
         'non-trivial = result (or target after the call) has at least one non-zero and one zero entry, or a rejection was demanded; '
         'distinct = hash of the serialised case')
 MIN_NONTRIVIAL = {'quick': 2000, 'thorough': 50000}
@@ -27,7 +32,11 @@ ASSUMPTIONS = ['NumPy is the reference semantics', 'numba disabled as in the rep
 
 
 def required(tier):
-    return ['op', 'inplace', 'getitem', 'setitem', 'reduce', 'construct', 'reject', 'history', 'enum', 'invariant']
+    return ['op', 'inplace', 'getitem', 'setitem', 'reduce', 'construct', 'reject', 'history', 'enum', 'invariant',
+            'op:left(1)', 'op:left(1xn)', 'op:vector-with-2d-right', 'op:right-blist', 'op:right-iarr1', 'op:right-npint', 'op:right-npbool', 'reduce:negative-axis', 'empty-operand',
+            'method', 'method:mix_from', 'method:copy_like', 'method:sum_of', 'method:queries', 'method:sparse_equal', 'method:sum_sparse_vectors', 'getmut', 'getmut:numpy-view', 'getmut:numpy-copy',
+            'construct:shared-rows', 'construct:from_rows', 'construct:sparse(copy=True)', 'construct:to_array(dtype)', 'construct:casts',
+            'history:log', 'history:ilog', 'history:ref', 'history:red', 'history:clear', 'history:get', 'history:abs']
 
 # ---------------------------------------------------------------------------
 # building operands from descriptions
@@ -47,6 +56,9 @@ def build(d):
     if k in ('arr1', 'arr1_1'): return np.array(v, dtype=float)
     if k == 'barr1': return np.array(v, dtype=bool)
     if k == 'blist': return [bool(i) for i in v]
+    if k == 'iarr1': return np.array(v, dtype=int)
+    if k == 'npint': return np.int64(v)
+    if k == 'npbool': return np.bool_(v)
     if k == 'list2': return [[float(i) for i in r] for r in v]
     if k == 'arr2': return np.array(v, dtype=float)
     if k == 'barr2': return np.array(v, dtype=bool)
@@ -77,6 +89,9 @@ def twin(d):
     if k == 'iscalar': return int(v)
     if k == 'bscalar': return bool(v)
     if k == 'arr0': return np.array(float(v))
+    if k == 'iarr1': return np.array(v, dtype=int)
+    if k == 'npint': return int(v)
+    if k == 'npbool': return bool(v)
     raise ValueError(k)
 
 
@@ -111,7 +126,7 @@ ILOG = {'iand': op.iand, 'ior': op.ior, 'ixor': op.ixor}
 REF = {'radd': lambda a, b: b + a, 'rsub': lambda a, b: b - a, 'rmul': lambda a, b: b * a, 'rtruediv': lambda a, b: b / a}
 UN = {'neg': op.neg, 'abs': abs, 'invert': op.invert}
 TABLES = {'bin': BIN, 'log': LOG, 'inp': INP, 'ilog': ILOG, 'ref': REF, 'un': UN}
-BOOLK = ('bscalar', 'barr1', 'slv', 'barr2', 'sab', 'blist')
+BOOLK = ('bscalar', 'barr1', 'slv', 'barr2', 'sab', 'blist', 'npbool')
 
 
 REFUSALS = ('cannot broadcast', 'cannot set an array element', 'shape mismatch', 'can be at most', 'must use tuple',
@@ -196,6 +211,10 @@ def run_op(case, rec):
         res = None; serr = e
     clause = 'inplace' if inplace else 'op'
     tag = f'{o}/{lk}/{"same" if alias else rk}'
+    if case.get('Lform'): tag = f'broadcast-left{case["Lform"]}/{lk}/{rk}'          # added forms: one key per operand-kind pairing (the operator is in the witness)
+    if case.get('Lform'): rec.hit('op:left' + case['Lform'])
+    if not alias and lk in ('sv', 'slv') and np.ndim(db) == 2: rec.hit('op:vector-with-2d-right')
+    if rk in ('blist', 'iarr1', 'npint', 'npbool'): rec.hit('op:right-' + rk)
     if rerr is not None:
         # NumPy has no answer: only the representation invariant is judged
         rec.refuse('numpy raises or non-finite: only invariant judged')
@@ -347,8 +366,14 @@ def run_reduce(case, rec):
         with np.errstate(all='ignore'): ref = getattr(da, name)(**kw)
     except Exception:
         rec.refuse('numpy raises in reduction'); return
+    if da.size == 0:
+        rec.hit('empty-operand')
+        if not np.all(np.isfinite(np.asarray(ref, dtype=float))): rec.refuse('numpy result not finite (not judged)'); return
+    if axis is not None and axis < 0: rec.hit('reduce:negative-axis')
     try: res = getattr(a, name)(**kw)
     except Exception as e:
+        if axis is not None and axis < 0 and isinstance(e, ValueError) and 'axis' in str(e):
+            rec.refuse('negative axis refused explicitly (axis is out of bounds)'); return
         rec.exception('reduce', e, what=f'{name}({kw}) raised on {case["L"]}'); return
     dr = np.asarray(dense(res), dtype=float); r = np.asarray(ref, dtype=float)
     scale = float(np.abs(da.astype(float)).max()) if da.size else 0.0   # summation order differs: cancellation error is relative to the largest addend
@@ -405,14 +430,286 @@ def run_construct(case, rec):
             ok = all(sorted(zip(*[list(i) for i in idx])) == sorted(zip(*[i.tolist() for i in ref])) for _ in [0])
             rec.check(ok, 'construct', 'nonzero_index', f'nonzero_index {idx} vs numpy {ref}')
             x = y
+        elif how in NEW_HOWS:
+            rec.hit('construct:' + how)
+            x, exp = construct_added(how, d, da, rec)
+            if x is None: return
+            if exp is not None: da = exp
         else:
             raise ValueError(how)
+    except Corrupt:
+        raise
     except Exception as e:
         rec.exception('construct', e, what=f'{how} raised on {d}'); return
     ok, why = same_values(dense(x), da)
     rec.check(ok, 'construct', f'{how}/{d["k"]}', f'{how}: {why}')
     e = invariant(x)
     rec.check(e is None, 'invariant', f'construct/{how}', f'invariant after {how}: {e}')
+    if nontrivial_image(da): rec.mark_nontrivial(case_hash(case))
+
+
+NEW_HOWS = ('zeros', 'SV(size=)', 'from_dict', 'from_rows', 'SA(rows)', 'shared-rows', 'SV(sparse)', 'sparse(copy=True)', 'to_array(dtype)', 'flat(out)', 'asarray', 'iter-len', 'casts', 'attrs')
+
+
+def poke(x, da):
+    """change one element of x (to a value different from the current one)."""
+    if isinstance(x, SA): x.rows[0][0] = (not da[0, 0]) if da.dtype == bool else (0. if da[0, 0] else 1.)
+    else: x[0] = (not da[0]) if da.dtype == bool else (0. if da[0] else 1.)
+
+
+def construct_added(how, d, da, rec):
+    """added construction / conversion forms; returns (object whose dense image must equal the expectation, expectation or None for da)."""
+    k = d['k']; logical = k in ('slv', 'sab')
+    if how == 'zeros':
+        if k == 'sv': x = SV.from_size(len(d['v']))
+        elif k == 'slv': x = SLV.from_size(len(d['v']))
+        else: x = SA.from_shape(da.shape)
+        return x, np.zeros(da.shape)
+    if how == 'SV(size=)':
+        x = SV(size=len(d['v'])) if k == 'sv' else (SLV(size=len(d['v'])) if k == 'slv' else SA.from_rows([SV(size=da.shape[1]) for _ in range(da.shape[0])]))
+        return x, np.zeros(da.shape)
+    if how == 'from_dict':
+        mk = (lambda r: SLV.from_set({i for i, v in enumerate(r) if v}, len(r))) if logical else (lambda r: SV.from_dict({i: float(v) for i, v in enumerate(r) if v}, len(r)))
+        return (mk(d['v']) if k in ('sv', 'slv') else SA.from_rows([mk(r) for r in d['v']])), None
+    if how in ('from_rows', 'SA(rows)'):
+        rows = [build({'k': 'slv' if logical else 'sv', 'v': r}) for r in (d['v'] if k in ('sa', 'sab') else [d['v']])]
+        x = SA.from_rows(list(rows)) if how == 'from_rows' else SA(list(rows))
+        rec.check(all(a is b for a, b in zip(x.rows, rows)), 'construct', f'{how}/adopts-rows', f'{how} did not adopt the row objects it was given (documented: rows are shared, not copied)')
+        return x, np.atleast_2d(da)
+    if how == 'shared-rows':
+        # two arrays built on the same row objects: an in-place write through one is seen through the other, and only in the shared rows
+        if k not in ('sa',) or da.size == 0: return None, None
+        A = build(d); m = len(A.rows)
+        sel = list(range(m))[::-1][:max(1, m - 1)]
+        B = SA.from_rows([A.rows[i] for i in sel])
+        B *= 2.; B[0, 0] = 5.
+        expB = da[sel] * 2.; expB[0, 0] = 5.
+        expA = da.copy(); expA[sel] = expB
+        ok, why = same_values(dense(B), expB)
+        rec.check(ok, 'construct', 'shared-rows/target', f'array built from rows {sel} of another array, after *= 2 and [0,0] = 5: {why}')
+        e = invariant(B)
+        rec.check(e is None, 'invariant', 'construct/shared-rows', f'invariant of the second array: {e}')
+        return A, expA
+    if how == 'SV(sparse)':
+        if k not in ('sv', 'slv'): return None, None
+        y = build(d); x = SV(y) if (k == 'sv' or len(d['v']) % 2) else SLV(y)
+        if da.size:
+            poke(x, da)
+            ok, _ = same_values(dense(y), da)
+            rec.check(ok, 'construct', 'SV(sparse)-independent', 'writing to SparseVector(other) changed the other vector')
+            x = SV(y)
+        return x, None
+    if how == 'sparse(copy=True)':
+        y = build(d); x = sp.sparse(y, copy=True)
+        if da.size:
+            poke(x, da)
+            ok, _ = same_values(dense(y), da)
+            if not rec.check(ok, 'construct', f'sparse(copy=True)-independent/{k}', f'sparse(x, copy=True) returned {"x itself" if x is y else "an object sharing storage with x"}: writing to the result changed x'):
+                return None, None
+            x = sp.sparse(y, copy=True)
+        return x, None
+    if how == 'to_array(dtype)':
+        y = build(d)
+        for dt in (float, bool, int):
+            if dt is int and np.abs(da.astype(float)).max(initial=0) > 1e9: continue
+            got = y.to_array(dtype=dt); ref = da.astype(dt)
+            rec.check(got.dtype == ref.dtype and got.shape == ref.shape and np.array_equal(got, ref), 'construct', f'to_array(dtype={dt.__name__})/{k}', f'to_array(dtype={dt.__name__}) = {got.tolist()} ({got.dtype}) vs numpy astype {ref.tolist()} ({ref.dtype})')
+            got2 = y.astype(dt)
+            rec.check(got2.dtype == ref.dtype and np.array_equal(got2, ref), 'construct', f'astype({dt.__name__})/{k}', f'astype({dt.__name__}) = {got2.tolist()} vs numpy {ref.tolist()}')
+        return y, None
+    if how == 'flat(out)':
+        y = build(d); out = np.full(da.size, 7.)
+        r = y.to_flat_array(out)
+        ok, why = same_values(out, da.ravel().astype(float))
+        rec.check(r is out and ok, 'construct', f'to_flat_array(out)/{k}', f'to_flat_array(arr=out): returned {"out" if r is out else "another object"}; {why}')
+        return y, None
+    if how == 'asarray':
+        y = build(d)
+        for nm, got in (('asarray', np.asarray(y)), ('array(float)', np.array(y, dtype=float))):
+            ok, why = same_values(got, da)
+            rec.check(ok and got.dtype != object, 'construct', f'np.{nm}/{k}', f'np.{nm}(x): dtype {got.dtype}; {why}')
+        return y, None
+    if how == 'iter-len':
+        y = build(d)
+        items = [dense(i) if isinstance(i, SPARSE) else i for i in y]
+        ok = len(y) == len(da) and len(items) == len(da) and all(same_values(a, b)[0] for a, b in zip(items, da))
+        rec.check(ok, 'construct', f'iter-len/{k}', f'len = {len(y)}, list(x) = {[np.asarray(i).tolist() for i in items]} vs numpy len {len(da)}, {da.tolist()}')
+        return y, None
+    if how == 'casts':
+        y = build(d)
+        for fn in ((float, int, bool) if da.size else ()):          # (scalar casts of empty arrays differ between NumPy versions: not judged)
+            try: ref = fn(da); rerr = None
+            except Exception as e: rerr = e
+            try: got = fn(y); serr = None
+            except Exception as e: serr = e
+            if rerr is not None:
+                rec.check(serr is not None, 'reject', f'cast-accepted/{fn.__name__}/{k}', f'{fn.__name__}(x) of shape {da.shape} returned a value where NumPy raises {type(rerr).__name__}')
+            elif serr is not None:
+                if isinstance(serr, OverflowError) or not np.isfinite(float(da.ravel()[0])): continue
+                rec.check(False, 'construct', f'cast-raised/{fn.__name__}/{k}', f'{fn.__name__}(x) raised {type(serr).__name__}: {serr} where NumPy returns {ref!r}')
+            else:
+                rec.check(got == ref and type(got) is type(ref), 'construct', f'cast/{fn.__name__}/{k}', f'{fn.__name__}(x) = {got!r} vs numpy {ref!r}')
+        return y, None
+    if how == 'attrs':
+        y = build(d)
+        good = y.shape == da.shape and y.size == da.size and y.ndim == da.ndim and ((y.dtype is bool) == (da.dtype == bool) if da.size else True) and y.vector_size == da.shape[-1]
+        rec.check(good, 'construct', f'attrs/{k}', f'shape {y.shape}, size {y.size}, ndim {y.ndim}, dtype {y.dtype}, vector_size {y.vector_size} vs numpy {da.shape}, {da.size}, {da.ndim}, {da.dtype}')
+        if isinstance(y, SA):
+            ok, why = same_values(y.value, da)
+            rec.check(ok, 'construct', 'value', f'.value: {why}')
+        return y, None
+    raise ValueError(how)
+
+
+def run_method(case, rec):
+    """public mutators / queries of the sparse classes with their NumPy meaning (added)."""
+    f = case['f']; d = case['L']
+    a = build(d); da = twin(d); k = d['k']
+    rec.hit('method:' + f)
+    tag = f'{f}/{k}'
+    as_set = lambda idx: sorted(zip(*[[int(j) for j in i] for i in idx])) if idx is not None else None
+    try:
+        if f == 'mix_from':
+            others = []; tw = []
+            for o in case['others']:
+                if o == 'self': others.append(a); tw.append(da.copy())
+                else: others.append(build(o)); tw.append(twin(o))
+            keep = [(o, t.copy()) for o, t in zip(others, tw) if o is not a]
+            r = a.mix_from(others)
+            ref = sum(tw) if tw else np.zeros(da.shape)
+            scale = max([float(np.abs(t).max(initial=0)) for t in tw] + [0.0])
+            got = dense(a)
+            rec.check(r is None and got.shape == ref.shape and np.allclose(got, ref, rtol=1e-12, atol=1e-13 * scale * max(1, len(tw))), 'method', tag + (f'/self-x{case["others"].count("self")}' if 'self' in case['others'] else ''),
+                      f'mix_from of {len(others)} vectors (self among them {case["others"].count("self")} times): {got.tolist()} vs numpy sum {np.asarray(ref).tolist()}')
+            for o, t in keep:
+                ok, why = same_values(dense(o), t)
+                rec.check(ok, 'operand-unchanged', 'mix_from', f'mix_from changed one of the mixed vectors: {why}')
+            ref_done = ref
+        elif f == 'copy_like':
+            b = build(case['R']); db = twin(case['R'])
+            r = a.copy_like(b)
+            ok, why = same_values(dense(a), db)
+            rec.check(r is None and ok, 'method', tag, f'copy_like: {why}')
+            if db.size:
+                poke(a, db)
+                ok2, why2 = same_values(dense(b), db)
+                rec.check(ok2, 'operand-unchanged', 'copy_like', f'writing to the target after copy_like changed the source: {why2}')
+            e = invariant(b); rec.check(e is None, 'invariant', 'copy_like-source', f'invariant of the source after copy_like: {e}')
+            ref_done = None
+        elif f == 'sum_of':
+            ix = case['ix']; idx = ix if isinstance(ix, int) else (list(ix) if case.get('ixk') == 'list' else (tuple(ix) if case.get('ixk') == 'tuple' else np.array(ix)))
+            if isinstance(a, SA):
+                axis = case.get('axis') or 0                       # documented default: axis=0 (sum over the rows)
+                got = a.sum_of(idx, axis) if case.get('axis') is not None else a.sum_of(idx)
+                sub = da[:, ix].astype(float)
+                ref = sub.sum(0) if axis == 0 else (sub.sum(1) if sub.ndim == 2 else sub)
+            else:
+                got = a.sum_of(idx); ref = da[ix].astype(float).sum()
+            scale = float(np.abs(da.astype(float)).max(initial=0))
+            got_ = np.asarray(got, float); ref = np.asarray(ref, float)
+            rec.check(got_.shape == ref.shape and np.allclose(got_, ref, rtol=1e-12, atol=1e-13 * scale * max(1, da.size)), 'method', f'{tag}/{"int" if isinstance(ix, int) else case.get("ixk")}/axis={case.get("axis")}',
+                      f'sum_of({ix}, axis={case.get("axis")}) = {got_.tolist()} vs numpy {ref.tolist()}')
+            ref_done = da
+        elif f == 'remove_negatives':
+            r = a.remove_negatives(); ref_done = np.where(da < 0, 0, da) if da.dtype != bool else da
+            rec.check(r is None, 'method', tag + '/returns', 'remove_negatives returned a value')
+        elif f == 'clear':
+            r = a.clear(); ref_done = np.zeros(da.shape)
+            rec.check(r is None, 'method', tag + '/returns', 'clear returned a value')
+        elif f == 'queries':
+            neg = da < 0 if da.dtype != bool else np.zeros(da.shape, bool)
+            pos = da > 0
+            two = da.ndim == 2
+            got = {'has_negatives': a.has_negatives(), 'negative_index': as_set(a.negative_index()), 'nonzero_index': as_set(a.nonzero_index()),
+                   'negative_keys': a.negative_keys()}
+            ref = {'has_negatives': bool(neg.any()), 'negative_index': sorted(zip(*[i.tolist() for i in np.nonzero(neg)])), 'nonzero_index': sorted(zip(*[i.tolist() for i in np.nonzero(da)])),
+                   'negative_keys': {int(i) for i in np.nonzero(neg)[-1]}}
+            if hasattr(a, 'positive_index'):
+                got['positive_index'] = as_set(a.positive_index()); ref['positive_index'] = sorted(zip(*[i.tolist() for i in np.nonzero(pos)]))
+            got['nonzero_keys'] = set(a.nonzero_keys()); ref['nonzero_keys'] = {int(i) for i in np.nonzero(da)[-1]}
+            got['nonzero_values'] = sorted(float(v) for v in a.nonzero_values()); ref['nonzero_values'] = sorted(float(v) for v in da[da != 0])
+            got['nonzero_items'] = {(tuple(i) if isinstance(i, tuple) else (i,)): float(v) for i, v in a.nonzero_items()}
+            ref['nonzero_items'] = {tuple(int(j) for j in i): float(da[i]) for i in zip(*np.nonzero(da))}
+            if two:
+                got['negative_rows'] = sorted(a.negative_rows()); ref['negative_rows'] = [int(i) for i in np.nonzero(neg.any(1))[0]]
+                got['nonzero_rows'] = sorted(a.nonzero_rows()); ref['nonzero_rows'] = [int(i) for i in np.nonzero((da != 0).any(1))[0]]
+            for q in ref:
+                rec.check(got[q] == ref[q], 'method', f'{q}/{k}', f'{q}() = {got[q]!r} but NumPy on the dense image gives {ref[q]!r}')
+            ref_done = da
+        elif f == 'sparse_equal':
+            b = build(case['R']); db = twin(case['R'])
+            got = a.sparse_equal(b); ref = bool(np.array_equal(da.astype(float), db.astype(float)))
+            rec.check(bool(got) == ref and isinstance(got, (bool, np.bool_)), 'method', f'{tag}/{case["R"]["k"]}', f'sparse_equal = {got!r} but the dense images are {"equal" if ref else "different"}: {da.tolist()} vs {db.tolist()}')
+            if isinstance(b, SPARSE + (np.ndarray,)):
+                ok, why = same_values(dense(b), db); rec.check(ok, 'operand-unchanged', 'sparse_equal', f'sparse_equal changed its argument: {why}')
+            ref_done = da
+        elif f == 'shares':
+            c = a.copy()
+            facts = [a.shares_data_with(a) is True, a.shares_data_with(c) is False]
+            if isinstance(a, SA) and a.rows:
+                v = SA.from_rows([a.rows[-1]])
+                facts += [a.shares_data_with(a.rows[0]) is True, a.rows[0].shares_data_with(a) is True, a.shares_data_with(v) is True, c.shares_data_with(v) is False, c.rows[0].shares_data_with(a) is False]
+            rec.check(all(facts), 'method', tag, f'shares_data_with answers {facts} (all must be True)')
+            ref_done = da
+        elif f == 'sum_sparse_vectors':
+            vs = [a] + [build(o) for o in case['others']]; tw = [da] + [twin(o) for o in case['others']]
+            got = sp.sum_sparse_vectors(vs)
+            ref = sum(t.astype(float) for t in tw)
+            scale = max(float(np.abs(t.astype(float)).max(initial=0)) for t in tw)
+            arr = np.zeros(da.shape)
+            for i, v in got.items(): arr[i] = v
+            rec.check(np.allclose(arr, ref, rtol=1e-12, atol=1e-13 * scale * len(tw)) and all(v != 0 for v in got.values()) and all(0 <= i < da.size for i in got), 'method', tag,
+                      f'sum_sparse_vectors = {got} but numpy sum = {ref.tolist()}')
+            for o, t in zip(vs, tw):
+                ok, why = same_values(dense(o), t); rec.check(ok, 'operand-unchanged', 'sum_sparse_vectors', f'sum_sparse_vectors changed an operand: {why}')
+            ref_done = da
+        else:
+            raise ValueError(f)
+    except Corrupt:
+        raise
+    except Exception as e:
+        rec.exception('method', e, what=f'{f} on {k} raised {type(e).__name__}: {str(e)[:150]}'); return
+    if ref_done is not None and f != 'mix_from':
+        ok, why = same_values(dense(a), ref_done)
+        rec.check(ok, 'method' if f in ('remove_negatives', 'clear') else 'operand-unchanged', f'{tag}/content', f'{f}: content afterwards: {why}')
+    e = invariant(a)
+    rec.check(e is None, 'invariant', f'method/{f}', f'invariant after {f}: {e}')
+    if nontrivial_image(da): rec.mark_nontrivial(case_hash(case))
+
+
+def run_getmut(case, rec):
+    """get, then write in place to what was got: NumPy returns views for basic indexing and copies for fancy / boolean indexing (added)."""
+    a = build(case['L']); da = twin(case['L'])
+    si, ni = mk_index(case['ix'])
+    try: sub_ref = da[ni]
+    except Exception: rec.refuse('numpy index error'); return
+    if not isinstance(sub_ref, np.ndarray) or sub_ref.size == 0: rec.refuse('selection is a scalar or empty (nothing to write to)'); return
+    try: sub = a[si]
+    except Exception as e:
+        if explicit_refusal(e): rec.refuse('library refuses this index form explicitly'); return
+        rec.exception('getitem', e, what=f'getitem {case["ix"]} on {case["L"]["k"]} raised but NumPy returns'); return
+    o = case['o']; c = case['c']
+    try:
+        if o == 'imul': sub_ref *= c
+        elif o == 'iadd': sub_ref += c
+        else: sub_ref[...] = c
+    except Exception: rec.refuse('numpy rejects the write'); return
+    try:
+        if o == 'imul': sub *= c
+        elif o == 'iadd': sub += c
+        else: sub[:] = c
+    except Exception as e:
+        rec.refuse('selection is not writable in the library (read-only dense copy): not judged'); return
+    rec.hit('getmut')
+    kind = 'view' if np.shares_memory(sub_ref, da) else 'copy'
+    rec.hit('getmut:numpy-' + kind)
+    ok, why = same_values(dense(sub), sub_ref)
+    rec.check(ok, 'inplace', f'value/get-{ix_tag(case["ix"])}-then-write', f'in-place {o} on the result of getitem {case["ix"]}: {why}')
+    ok2, why2 = same_values(dense(a), da)
+    rec.check(ok2, 'inplace', f'only-target/get-{ix_tag(case["ix"])}-then-write/numpy-{kind}',
+              f'b = a[{case["ix"]}]; b {o} {c}: NumPy treats b as a {kind} of a, so a must be {da.tolist()} afterwards, but the sparse array is {dense(a).tolist()}')
+    e = invariant(a) or (invariant(sub) if isinstance(sub, SPARSE) else None)
+    rec.check(e is None, 'invariant', 'getmut', f'invariant after get-then-write: {e}')
     if nontrivial_image(da): rec.mark_nontrivial(case_hash(case))
 
 
@@ -520,6 +817,71 @@ def run_history(case, rec):
             elif t == 'neg':
                 if twins[st['i']].dtype == bool: rec.refuse('history step skipped: neg of logical'); continue
                 pool[st['k']] = -pool[st['i']]; twins[st['k']] = -twins[st['i']]
+            # ---- added step kinds -------------------------------------------------------------------------------------
+            elif t in ('log', 'ilog'):
+                b = pool[st['j']] if 'j' in st else build(st['R']); db = twins[st['j']] if 'j' in st else twin(st['R'])
+                tw = twins[st['i']]
+                if tw.dtype != bool or np.asarray(db).dtype != bool: rec.refuse('history step skipped: logical operator needs logical operands'); continue
+                if t == 'log':
+                    try: ref = LOG[st['o']](tw, db)
+                    except Exception: rec.refuse('history step skipped: numpy rejects'); continue
+                    res = LOG[st['o']](pool[st['i']], b)
+                    pool[st['k']] = res; twins[st['k']] = np.array(ref)
+                else:
+                    try: ref = LOG[st['o'][1:]](tw, db)
+                    except Exception: rec.refuse('history step skipped: numpy rejects'); continue
+                    if ref.shape != tw.shape: rec.refuse('history step skipped: growth/non-finite'); continue
+                    if isinstance(db, np.ndarray) and np.shares_memory(db, tw) and b is not pool[st['i']]:
+                        rec.refuse('history step skipped: operand is a view of the target (only a op= a is in D)'); continue
+                    tw[...] = ref
+                    r = ILOG[st['o']](pool[st['i']], b)
+                    if r is not pool[st['i']]:
+                        rec.check(False, 'history', f'inplace-identity/{st["o"]}', 'in-place operator returned another object'); return
+                rec.hit('history:' + t)
+            elif t == 'abs':
+                pool[st['k']] = abs(pool[st['i']]); twins[st['k']] = np.abs(twins[st['i']]); rec.hit('history:abs')
+            elif t == 'inv':
+                if twins[st['i']].dtype != bool: rec.refuse('history step skipped: invert of a float object'); continue
+                pool[st['k']] = ~pool[st['i']]; twins[st['k']] = ~twins[st['i']]; rec.hit('history:inv')
+            elif t == 'ref':
+                tw = twins[st['i']]
+                if tw.dtype == bool: rec.refuse('history step skipped: logical operand in arithmetic'); continue
+                c = build(st['R']); dc = twin(st['R'])
+                try:
+                    with np.errstate(all='ignore'): ref = REF[st['o']](tw, dc)
+                except Exception: rec.refuse('history step skipped: numpy rejects'); continue
+                if not np.all(np.isfinite(np.asarray(ref, dtype=float))): rec.refuse('history step skipped: non-finite'); continue
+                res = REF[st['o']](pool[st['i']], c)
+                if not isinstance(res, SPARSE): res = sp.sparse(np.asarray(res))       # a dense left operand may keep the result dense: values are what is compared
+                pool[st['k']] = res; twins[st['k']] = np.array(ref); rec.hit('history:ref')
+            elif t == 'red':
+                tw = twins[st['i']]
+                kw = {}
+                if st.get('axis') is not None:
+                    if st['axis'] >= tw.ndim: rec.refuse('history step skipped: no such axis'); continue
+                    kw['axis'] = st['axis']
+                if st.get('keepdims'): kw['keepdims'] = True
+                try:
+                    with np.errstate(all='ignore'): ref = np.asarray(getattr(tw, st['f'])(**kw), float)
+                except Exception: rec.refuse('history step skipped: numpy rejects'); continue
+                got = np.asarray(dense(getattr(pool[st['i']], st['f'])(**kw)), float)
+                scale = float(np.abs(tw.astype(float)).max(initial=0))
+                if not (got.shape == ref.shape and np.allclose(got, ref, rtol=1e-12, atol=1e-13 * scale * max(1, tw.size))):
+                    rec.check(False, 'history', f'reduce/{st["f"]}', f'after step {n} {st}: {st["f"]}({kw}) = {got.tolist()} vs numpy {ref.tolist()}'); return
+                rec.hit('history:red')
+            elif t == 'clear':
+                if isinstance(pool[st['i']], SLV): rec.refuse('history step skipped: logical vectors offer no clear()'); continue
+                pool[st['i']].clear(); twins[st['i']][...] = 0; rec.hit('history:clear')
+            elif t == 'get':
+                # basic indexing only (a row, a slice of rows, the whole object): views in NumPy and shared rows in the library
+                si, ni = mk_index(st['ix'])
+                tw = twins[st['i']]
+                if not index_in_range(st['ix'], tw.shape[:1]): rec.refuse('history step skipped: index outside current shape'); continue
+                ref = tw[ni]
+                if not isinstance(ref, np.ndarray) or ref.size == 0: rec.refuse('history step skipped: empty / scalar selection'); continue
+                res = pool[st['i']][si]
+                if not isinstance(res, SPARSE): rec.refuse('history step skipped: selection is a dense copy'); continue
+                pool[st['k']] = res; twins[st['k']] = ref; rec.hit('history:get')
             else:
                 raise ValueError(t)
         except Corrupt:
@@ -541,7 +903,7 @@ def run_history(case, rec):
     if nt: rec.mark_nontrivial(case_hash(case))
 
 
-RUNNERS = {'op': run_op, 'get': run_get, 'set': run_set, 'red': run_reduce, 'con': run_construct, 'rej': run_reject, 'hist': run_history}
+RUNNERS = {'op': run_op, 'get': run_get, 'set': run_set, 'red': run_reduce, 'con': run_construct, 'rej': run_reject, 'hist': run_history, 'meth': run_method, 'gm': run_getmut}
 
 
 def run_case(case, rec):
@@ -580,10 +942,22 @@ def gen_left(rng, m, n, vals):
     return {'k': k, 'v': [bv(rng, n) for _ in range(m)]}
 
 
-def gen_right(rng, lk, m, n, vals):
+def gen_right(rng, lk, m, n, vals, two_d=False):
     ks = ['scalar', 'bscalar', 'npscalar', 'arr0', 'list', 'arr1', 'barr1', 'sv', 'slv', 'list1', 'arr1_1', 'sv1', 'slv1', 'iscalar']
     if lk in ('sa', 'sab'): ks += ['arr2', 'barr2', 'sa', 'sab', 'sa1n', 'list2', 'arr2', 'sa']
     k = rng.choice(ks)
+    # added kinds: Python bool list, integer ndarray, NumPy integer / bool scalars; 2-d right operands for a 1-d left operand
+    r = rng.random()
+    if r < 0.08: k = rng.choice(['blist', 'iarr1', 'npint', 'npbool'])
+    elif two_d and lk in ('sv', 'slv') and r < 0.2:
+        k = rng.choice(['arr2', 'list2', 'sa', 'sab', 'barr2', 'sa1n'])
+        # (a dense 2-d operand with a single row is reduced to 1-d by the library's documented reduce_ndim: result shape (n,) where
+        #  NumPy gives (1, n); a library-specific dimension reduction outside the decided domain, so dense 2-d operands get >= 2 rows here)
+        if k in ('arr2', 'list2', 'barr2'): m = max(m, 2)
+    if k == 'blist': return {'k': k, 'v': bv(rng, n)}
+    if k == 'iarr1': return {'k': k, 'v': [rng.choice([0, 0, 1, 2, -1, 3]) for _ in range(n)]}
+    if k == 'npint': return {'k': k, 'v': rng.choice([0, 1, 2, -1])}
+    if k == 'npbool': return {'k': k, 'v': rng.random() < .5}
     if k == 'scalar': return {'k': k, 'v': rng.choice(vals)}
     if k == 'iscalar': return {'k': k, 'v': rng.choice([0, 1, 2, -1])}
     if k == 'bscalar': return {'k': k, 'v': rng.random() < .5}
@@ -624,7 +998,12 @@ def gen_op(rng):
             return None
         if not logical and fam in ('log', 'ilog'): return None
         return {'t': 'op', 'fam': fam, 'o': o, 'L': L, 'R': 'same'}
-    R = gen_right(rng, lk, m, n, vals); rk = R['k']
+    R = gen_right(rng, lk, m, n, vals, two_d=fam in ('bin', 'log')); rk = R['k']
+    Lform = None
+    if fam in ('bin', 'log') and rng.random() < 0.1:
+        # added: the length-1 / single-row operand on the LEFT (broadcast against a longer right operand)
+        if lk in ('sv', 'slv') and n > 1: L = {'k': lk, 'v': L['v'][:1]}; Lform = '(1)'
+        elif lk in ('sa', 'sab') and m > 1: L = {'k': lk, 'v': L['v'][:1]}; Lform = '(1xn)'
     if fam == 'ref' and is_sparse_kind(rk): return None
     if fam in ('log', 'ilog'):
         if not logical or rk not in BOOLK: return None
@@ -641,7 +1020,9 @@ def gen_op(rng):
         try: np.broadcast_shapes(np.shape(twin(L)), np.shape(twin(R)))
         except ValueError: return None
     # D: an array against an array needs equal row counts or a single row on one side
-    return {'t': 'op', 'fam': fam, 'o': o, 'L': L, 'R': R}
+    case = {'t': 'op', 'fam': fam, 'o': o, 'L': L, 'R': R}
+    if Lform: case['Lform'] = Lform
+    return case
 
 
 def gen_index(rng, shape):
@@ -727,13 +1108,22 @@ def gen_set(rng):
     return {'t': 'set', 'L': L, 'ix': ix, 'V': V}
 
 
+def empty_left(rng, L):
+    """an empty operand of the same kind: a size-0 vector or an array with rows of size 0."""
+    if L['k'] in ('sv', 'slv'): return {'k': L['k'], 'v': []}
+    return {'k': L['k'], 'v': [[] for _ in L['v']]}
+
+
 def gen_reduce(rng):
     vals = values(rng, big=False)
     m = rng.choice([1, 2, 3]); n = rng.choice([1, 2, 3, 4, 6])
     L = gen_left(rng, m, n, vals)
     two = L['k'] in ('sa', 'sab')
-    return {'t': 'red', 'L': L, 'f': rng.choice(['any', 'all', 'sum', 'mean', 'max', 'min']),
+    if rng.random() < 0.03: L = empty_left(rng, L)         # added: empty operands
+    case = {'t': 'red', 'L': L, 'f': rng.choice(['any', 'all', 'sum', 'mean', 'max', 'min']),
             'axis': rng.choice([None, 0, 1]) if two else rng.choice([None, None, 0]), 'keepdims': rng.random() < 0.4}
+    if rng.random() < 0.06: case['axis'] = rng.choice([-1, -2]) if two else -1          # added: negative axis (NumPy counts from the end)
+    return case
 
 
 def gen_construct(rng):
@@ -743,7 +1133,55 @@ def gen_construct(rng):
     hows = ['sparse()', 'sparse(ndarray)', 'copy', 'tolist', 'flat', 'sparse(sparse)', 'nonzero']
     if L['k'] in ('sv', 'sa'): hows.append('dict')
     if L['k'] == 'slv': hows.append('set')
+    if rng.random() < 0.03: L = empty_left(rng, L)         # added: empty operands
+    if rng.random() < 0.5: return {'t': 'con', 'how': rng.choice(NEW_HOWS), 'L': L}        # added forms
     return {'t': 'con', 'how': rng.choice(hows), 'L': L}
+
+
+def gen_method(rng):
+    vals = values(rng, big=rng.random() < 0.3)
+    m = rng.choice([1, 2, 3]); n = rng.choice([1, 2, 3, 4, 6])
+    f = rng.choice(['mix_from', 'mix_from', 'copy_like', 'sum_of', 'sum_of', 'remove_negatives', 'clear', 'queries', 'queries', 'sparse_equal', 'shares', 'sum_sparse_vectors'])
+    L = gen_left(rng, m, n, vals); k = L['k']
+    same_kind = lambda: {'k': k, 'v': ([fv(rng, n, vals) for _ in range(m)] if k == 'sa' else [bv(rng, n) for _ in range(m)] if k == 'sab' else fv(rng, n, vals) if k == 'sv' else bv(rng, n))}
+    case = {'t': 'meth', 'f': f, 'L': L}
+    if f == 'mix_from':
+        L = case['L'] = {'k': 'sv', 'v': fv(rng, n, vals)}
+        others = [{'k': 'sv', 'v': fv(rng, n, vals)} for _ in range(rng.randrange(0, 4))]
+        for _ in range(rng.choice([0, 0, 1, 2])): others.insert(rng.randrange(len(others) + 1), 'self')
+        if rng.random() < 0.2 and others and others[0] != 'self':     # exact cancellation between the mixed vectors
+            others.append({'k': 'sv', 'v': [-v for v in others[0]['v']]})
+        case['others'] = others
+    elif f in ('copy_like', 'shares'):
+        # (logical vectors do not offer copy_like / shares_data_with: not an offered operation)
+        if k == 'slv': L = case['L'] = {'k': 'sv', 'v': fv(rng, n, vals)}; k = 'sv'
+        if k == 'sab': L = case['L'] = {'k': 'sa', 'v': [fv(rng, n, vals) for _ in range(m)]}; k = 'sa'
+        if f == 'shares': return case
+        case['R'] = same_kind() if rng.random() < 0.9 else L
+    elif f == 'sum_of':
+        kk = rng.randrange(1, n + 1)
+        if rng.random() < 0.3: case['ix'] = rng.randrange(n)
+        else: case['ix'] = rng.sample(range(n), kk); case['ixk'] = rng.choice(['list', 'tuple', 'array'] if k in ('sv', 'slv') else ['list', 'array'])    # (a tuple is a 2-d index for an array)
+        if k in ('sa', 'sab'): case['axis'] = rng.choice([None, 0, 1])
+    elif f in ('remove_negatives', 'clear'):
+        if k == 'slv' and f == 'clear': L = case['L'] = {'k': 'sab', 'v': [bv(rng, n) for _ in range(m)]}
+    elif f == 'sparse_equal':
+        R = same_kind() if rng.random() < 0.5 else dict(L)
+        if rng.random() < 0.5: R = {'k': {'sv': rng.choice(['list', 'arr1']), 'slv': rng.choice(['blist', 'barr1']), 'sa': rng.choice(['list2', 'arr2']), 'sab': 'barr2'}[k], 'v': R['v']}
+        case['R'] = R
+    elif f == 'sum_sparse_vectors':
+        if k in ('sa', 'sab'): L = case['L'] = {'k': 'sv', 'v': fv(rng, n, vals)}; k = 'sv'
+        case['others'] = [{'k': k, 'v': fv(rng, n, vals) if k == 'sv' else bv(rng, n)} for _ in range(rng.randrange(0, 3))]
+        if k == 'sv' and rng.random() < 0.3: case['others'].append({'k': 'sv', 'v': [-v for v in L['v']]})
+    return case
+
+
+def gen_getmut(rng):
+    vals = [0., 0., 1., -1., 2., 0.5, -0.5, 3., 0.25]
+    m = rng.choice([2, 3]); n = rng.choice([2, 3, 4])
+    L = {'k': 'sa', 'v': [fv(rng, n, vals) for _ in range(m)]} if rng.random() < 0.75 else {'k': 'sv', 'v': fv(rng, n, vals)}
+    shape = np.shape(twin(L))
+    return {'t': 'gm', 'L': L, 'ix': gen_index(rng, shape), 'o': rng.choice(['imul', 'iadd', 'set']), 'c': rng.choice([2., 0., -1., 0.5])}
 
 
 def gen_reject(rng):
@@ -807,8 +1245,10 @@ def gen_history(rng, maxlen):
     pool = []
     for _ in range(4):
         k = rng.choice(['sv', 'sv', 'sa', 'sa', 'slv'])
+        if rng.random() < 0.12: k = 'sab'                       # added: logical 2-d members
         if k == 'sv': pool.append({'k': k, 'v': fv(rng, n, vals)})
         elif k == 'slv': pool.append({'k': k, 'v': bv(rng, n)})
+        elif k == 'sab': pool.append({'k': k, 'v': [bv(rng, n) for _ in range(m)]})
         else: pool.append({'k': k, 'v': [fv(rng, n, vals) for _ in range(m)]})
     kinds = [p['k'] for p in pool]   # tracked approximately; run_history skips steps NumPy rejects
     shapes = [np.shape(twin(p)) for p in pool]
@@ -816,6 +1256,31 @@ def gen_history(rng, maxlen):
     for _ in range(rng.randrange(5, maxlen + 1)):
         t = rng.choice(['bin', 'bin', 'inp', 'inp', 'inp', 'set', 'set', 'row', 'copy', 'neg'])
         i = rng.randrange(4)
+        if rng.random() < 0.3:
+            # added step kinds
+            t = rng.choice(['log', 'ilog', 'ilog', 'abs', 'inv', 'ref', 'red', 'clear', 'get', 'get'])
+            if t in ('log', 'ilog'):
+                st = {'t': t, 'o': rng.choice(['and', 'or', 'xor']) if t == 'log' else rng.choice(['iand', 'ior', 'ixor']), 'i': i}
+                if rng.random() < 0.6: st['j'] = rng.randrange(4) if rng.random() < 0.8 else i
+                else: st['R'] = rng.choice([{'k': 'bscalar', 'v': rng.random() < .5}, {'k': 'barr1', 'v': bv(rng, n)}, {'k': 'blist', 'v': bv(rng, n)}, {'k': 'slv', 'v': bv(rng, n)}])
+                if t == 'log': st['k'] = rng.randrange(4)
+            elif t in ('abs', 'inv'): st = {'t': t, 'i': i, 'k': rng.randrange(4)}
+            elif t == 'ref':
+                st = {'t': t, 'o': rng.choice(list(REF)), 'i': i, 'k': rng.randrange(4), 'R': rng.choice([{'k': 'scalar', 'v': rng.choice(vals)}, {'k': 'arr1', 'v': fv(rng, n, vals)}, {'k': 'iscalar', 'v': rng.choice([1, 2, -1])}])}
+            elif t == 'red': st = {'t': t, 'i': i, 'f': rng.choice(['any', 'all', 'sum', 'mean', 'max', 'min']), 'axis': rng.choice([None, None, 0, 1]), 'keepdims': rng.random() < 0.3}
+            elif t == 'clear': st = {'t': t, 'i': i}
+            else:
+                ix = rng.choice([{'t': 'int', 'i': rng.randrange(m)}, {'t': 'slice'}, {'t': 'slice', 'a': rng.choice([None, 0, 1]), 'b': rng.choice([None, m, max(1, m - 1)]), 'c': rng.choice([None, 1, 2])}])
+                st = {'t': t, 'i': i, 'ix': ix, 'k': rng.randrange(4)}
+            steps.append(st)
+            if st['t'] in ('abs', 'inv'): shapes[st['k']] = shapes[st['i']]
+            elif st['t'] in ('log', 'ref') :
+                sb = shapes[st['j']] if 'j' in st else np.shape(twin(st['R']))
+                try: shapes[st['k']] = np.broadcast_shapes(shapes[st['i']], sb)
+                except ValueError: pass
+            elif st['t'] == 'get' and len(shapes[st['i']]) == 2:
+                shapes[st['k']] = (n,) if st['ix']['t'] == 'int' else shapes[st['i']]
+            continue
         if t in ('bin', 'inp'):
             o = rng.choice(['add', 'sub', 'mul', 'truediv'] if t == 'bin' else ['iadd', 'isub', 'imul', 'itruediv'])
             if t == 'bin' and rng.random() < 0.25: o = rng.choice(['eq', 'ne', 'gt', 'lt', 'ge', 'le'])
@@ -905,10 +1370,10 @@ def run(rec, rng, tier, shard, nshards):
     quick = tier == 'quick'
     if shard == 0:
         for case in REGRESSION: run_case(case, rec)
-    n_rand = 25000 if quick else 250000
+    n_rand = 28500 if quick else 285000          # (the original 25000 / 250000 plus the share of the added generators)
     n_hist = 2000 if quick else 25000
     maxlen = 30
-    gens = [(gen_op, 0.42), (gen_get, 0.12), (gen_set, 0.2), (gen_reduce, 0.1), (gen_construct, 0.06), (gen_reject, 0.1)]
+    gens = [(gen_op, 0.42), (gen_get, 0.12), (gen_set, 0.2), (gen_reduce, 0.1), (gen_construct, 0.06), (gen_reject, 0.1), (gen_method, 0.06), (gen_getmut, 0.03), (gen_construct, 0.04)]
     names, weights = zip(*gens)
     for _ in range(n_rand):
         g = rng.choices(names, weights)[0]
